@@ -3,14 +3,16 @@ C09 — upstream in-flight and failure accounting stays exact under concurrency:
 
 All theorems quantify over `Reachable s`: every state of every interleaving of the atomic steps
 of `Model.step`, for any number of requests, Host objects, configurations and forgetters, any
-outcome per attempt and any reload points.  (`ReachableM` for the `hosts` pool clause: the tree
-violates the full clause, see `Witness.lean`.)
+outcome per attempt and any reload points — including loads that fail in Provision.  (The `hosts`
+pool clause was false for the Cleanup before fix d6561d4; `Witness.lean` keeps that as
+`…_old_code_fails` theorems about the old definition.)
 -/
 import CaddyModel.C09.PoolLemmas
 import CaddyModel.C09.SchedLemmas
 import CaddyModel.C09.FuelLemmas
 import CaddyModel.C09.Concrete
 import CaddyModel.C09.Witness
+import CaddyModel.Gen.ProxyCount
 
 namespace CaddyModel.C09
 
@@ -245,33 +247,47 @@ example : ∃ s, Reachable s ∧ (s.reqs[0]?).map (·.pc) = some (Pc.exited 0 Ou
 -- ---------------------------------------------------------------- the `hosts` pool across reloads
 
 /-- the pool's usage count of a key equals the number of loaded handlers holding it -/
-theorem pool_refs_eq_holders {s : State} (h : ReachableM s) (k : Key) : refs s k = holders s k :=
-  (poolInv_reachableM h).refs_eq k
+theorem pool_refs_eq_holders {s : State} (h : Reachable s) (k : Key) : refs s k = holders s k :=
+  (poolInv_reachable h).refs_eq k
 
-example : ∃ s, ReachableM s ∧ refs s 7 = 1 ∧ holders s 7 = 1 ∧ refs s 8 = 0 ∧ s.inflight 0 = 1 :=
-  witnessM exR (by decide)
+example : ∃ s, Reachable s ∧ refs s 7 = 1 ∧ holders s 7 = 1 ∧ refs s 8 = 0 ∧ s.inflight 0 = 1 :=
+  witness exR (by decide)
 
-/-- **host_preserved_across_reload_partial** — as long as every Cleanup delete is matched
-    (excluded: a handler whose Provision failed before its upstreams were set up), a step that leaves
-    key `k` in use by some loaded handler keeps the very same Host object in the pool:
-    `key ∈ old ∩ new → usage count ≥ 1 throughout, same Host`.
-    Full statement (without `matched`): refuted in `Witness.host_preserved_full_fails`. -/
-theorem host_preserved_across_reload_partial {s s' : State} {a : Action} (h : ReachableM s)
-    (hm : a.matched s = true) (hs : step s a = some s') (k : Key)
-    (hb : 0 < holders s k) (ha : 0 < holders s' k) :
+/-- **host_preserved_across_reload** — a step that leaves key `k` in use by some loaded handler
+    keeps the very same Host object in the pool: `key ∈ old ∩ new → usage count ≥ 1 throughout,
+    same Host` — for every interleaving, including the Cleanup of configurations whose Provision
+    failed before their upstreams were set up (it releases nothing it did not store).
+    For the Cleanup before fix d6561d4 the statement is false: `Witness.host_preserved_old_code_fails`. -/
+theorem host_preserved_across_reload {s s' : State} {a : Action} (h : Reachable s)
+    (hs : step s a = some s') (k : Key) (hb : 0 < holders s k) (ha : 0 < holders s' k) :
     ∃ o, poolObj s k = some o ∧ poolObj s' k = some o ∧ 0 < refs s' k :=
-  host_preserved_step (poolInv_reachableM h) (poolInv_reachableM (ReachableM.step a h hm hs)) hs k hb ha
+  host_preserved_step (poolInv_reachable h) (poolInv_reachable (Reachable.step a h hs)) hs k hb ha
 
-example : ∃ s, ReachableM s ∧ holders s 7 = 2 ∧ poolObj s 7 = some 0 := witnessM (exR.take 7) (by decide)
+example : ∃ s, Reachable s ∧ holders s 7 = 2 ∧ poolObj s 7 = some 0 := witness (exR.take 7) (by decide)
+/-- …also right before the Cleanup of a rejected configuration that lists the key (the old witness) -/
+example : ∃ s, Reachable s ∧ 0 < holders s 7 ∧ (step s (.delete 1 7)).map (fun s' => (holders s' 7, poolObj s' 7)) = some (1, some 0) :=
+  witness wBad (by decide)
 
 /-- every loaded handler that still holds a key points at the pool's Host object for it: a new
     configuration that keeps an upstream shares its counters with the old one -/
-theorem holders_share_host {s : State} (h : ReachableM s) {cs : CfgSt} (hc : cs ∈ s.cfgs) {k : Key} {o : HostId}
+theorem holders_share_host {s : State} (h : Reachable s) {cs : CfgSt} (hc : cs ∈ s.cfgs) {k : Key} {o : HostId}
     (hu : (k, o) ∈ cs.ups) (hh : k ∈ cs.held) : poolObj s k = some o :=
-  (poolInv_reachableM h).same_obj cs hc k o hu hh
+  (poolInv_reachable h).same_obj cs hc k o hu hh
 
-example : ∃ s, ReachableM s ∧ (s.cfgs.map fun cs => (cs.ups, cs.held)) = [([(7, 0), (8, 1)], [8, 7]), ([(7, 0)], [7])] :=
-  witnessM (exR.take 7) (by decide)
+example : ∃ s, Reachable s ∧ (s.cfgs.map fun cs => (cs.ups, cs.held)) = [([(7, 0), (8, 1)], [8, 7]), ([(7, 0)], [7])] :=
+  witness (exR.take 7) (by decide)
+
+-- ---------------------------------------------------------------- the source premise
+
+/-- **dec_is_deferred_right_after_inc_in_source** — the syntactic premise of `dec_on_every_exit`,
+    regenerated from /repo by tools/extract on every run: in reverseproxy.go there is exactly one
+    `countRequest(1)` and one `countRequest(-1)` call site, and the statement right after the
+    increment is `defer …countRequest(-1)`, so the decrement runs on every exit incl. panics.
+    (The harness case `static defer` checks the same on the source it was built from.) -/
+theorem dec_is_deferred_right_after_inc_in_source :
+    Gen.proxyIncFollowedByDeferredDec = true ∧ Gen.proxyIncSites = 1 ∧ Gen.proxyDecSites = 1 := by decide
+
+example : Gen.proxyIncSites = Gen.proxyDecSites := by decide
 
 -- ---------------------------------------------------------------- the schedules of the harness
 
